@@ -624,3 +624,20 @@ func c10Round5(c *Ctx) {
 		c.Check(n > 0 && bad == "", "C10.nilerr", fname(fn)+":the optional runtime signing key of an init response is dereferenced only behind its nil test", c.P.Pos(fn.Pos()), itoa(n)+" dereference(s), each behind `initResponse.RSK != nil`", "generateStatus dereferences InitResponse.RSK at "+bad+" without that field's own nil test (dereferences found: "+itoa(n)+"): a key manager node without a runtime signing key crashes the key manager's BeginBlock on every node")
 	}
 }
+
+// remoteProofVersionRule (genuine defect F69; run under C04 and C16): a node that reads through a peer merges the
+// peer's proof only if it is of the version that was asked for. Nodes of a version-1 proof carry only the hash of
+// their leaf (and may encode an absent leaf as an empty-hash entry); merged into the cache of a tree that serves
+// version-0 proofs to its own clients they made the proof builder dereference a nil leaf — one valid answer from a
+// peer crashed the relaying node.
+func remoteProofVersionRule(c *Ctx, rule string) {
+	fn := c.needFn(rule, "storage/mkvs.(*cache).remoteSync")
+	if fn == nil {
+		return
+	}
+	vp := CallsTo(fn, "VerifyProof", "storage/mkvs/syncer.(*ProofVerifier).VerifyProof", "")
+	mg := CallsTo(fn, "MergeVerifiedSubtree", "storage/mkvs/syncer.(*SubtreeMerger).MergeVerifiedSubtree", "")
+	ev := union("verification and merge of the fetched proof", vp, mg)
+	ev.Name, ev.Fn = "verification and merge of the fetched proof", fn
+	c.DominatedByCond(rule, fn, "proof.V == the version asked for", `^\*call:param:fetcher\(.*\)#0\.V == \d+$`, ev, "a proof of another version than the one requested is refused before anything of it is merged (F69)")
+}
